@@ -76,8 +76,7 @@ func (tt *testTrie) match(components []string) bool {
 		}
 		// See if there's a double-wildcard that may match the empty remaining components.
 		child := tt.children["**"]
-		if child != nil && child.present {
-			child.matched.Add(1)
+		if child != nil && child.match(nil) {
 			return true
 		}
 		return false
